@@ -280,6 +280,13 @@ pub fn build_embedded(t: &Tree) -> Embedded<'static> {
         for q in &t.dirs { if join_id(&q[..q.len() - 1]) == d { es.push(DirEntry::Directory(leak(join_id(q)))); } }
         dirs.push((leak(d), &*Box::leak(es.into_boxed_slice())));
     }
+    // `RawEmbedded` is a public struct with public fields and no ordering requirement: hand it over in an order that is
+    // neither sorted nor reverse-sorted (descending, then rotated by a third)
+    let mut files = files;
+    files.sort_by(|a, b| b.0.cmp(&a.0));
+    let n = files.len(); if n > 2 { files.rotate_left(n / 3 + 1); }
+    dirs.sort_by(|a, b| b.0.cmp(a.0));
+    let m = dirs.len(); if m > 2 { dirs.rotate_left(m / 3 + 1); }
     let raw = RawEmbedded { files: Box::leak(files.into_boxed_slice()), dirs: Box::leak(dirs.into_boxed_slice()) };
     Embedded::from(raw)
 }
@@ -341,7 +348,8 @@ impl Setup {
         let (inner, tmp): (Box<dyn Source + Send + Sync>, Option<TempRoot>) = match w[1] {
             "fs" => {
                 let tmp = TempRoot::new();
-                let root = tmp.0.join("root");
+                // the root's own name has a dot: only ids are dotted paths, the root directory is not one
+                let root = tmp.0.join("root.v2");
                 materialise(&self.tree, &root).map_err(|e| format!("materialise: {e}"))?;
                 (Box::new(FileSystem::new(&root).map_err(|e| format!("{e}"))?), Some(tmp))
             }
